@@ -158,6 +158,7 @@ class Executor:
         self.models_used = set()
         self._index()
         self.const_cache = {}
+        self.generics = {}        # session-wide instantiation of generic type parameters, e.g. {"T": "i128"}
 
     # ------------------------------------------------------------ function index
     def _index(self):
@@ -395,6 +396,10 @@ class Executor:
             raise NotEncodable("switchInt on %r" % (v,))
         targets = s[2]
         listed = [(int(k), bbn) for k, bbn in targets if k != "otherwise"]
+        if isinstance(v, Int) and v.ty in INT_TYPES and INT_TYPES[v.ty][0]:
+            # MIR prints switch targets as the unsigned bit pattern of the operand type (Ordering::Less = 255_i8)
+            n = INT_TYPES[v.ty][1]
+            listed = [((k - (1 << n)) if k >= (1 << (n - 1)) else k, bbn) for k, bbn in listed]
         other = [bbn for k, bbn in targets if k == "otherwise"]
         if conc:
             for k, bbn in listed:
@@ -407,8 +412,13 @@ class Executor:
         if other:
             ob = other[0]
             blk = fn.blocks.get(ob, [])
+            rest = and_(*[not_(as_int(k)) for k, _ in listed])
             if not (len(blk) == 1 and blk[0].strip() == "unreachable"):
-                branches.append((and_(*[not_(as_int(k)) for k, _ in listed]), ob))
+                branches.append((rest, ob))
+            else:
+                # fall-through the compiler marked unreachable: skipped, but the solver must confirm that the
+                # listed targets are exhaustive on this path (guards the encoder against a silently dropped path)
+                self.oblige("exhaustive", "%s: switch fall-through marked unreachable" % fn.name, st.pc, rest)
         live = [(c, b) for c, b in branches if not (is_c(c) and not c)]
         if not live:
             return None
@@ -563,6 +573,8 @@ class Executor:
         raise NotEncodable("operand %r" % (op,))
 
     def _const(self, s, cur=None):
+        for gp, gt_ in self.generics.items():
+            s = re.sub(r"\b%s\b" % re.escape(gp), gt_, s)
         m = re.match(r"^(-?\d+)_([iu](?:8|16|32|64|128|size))$", s)
         if m:
             return Int(int(m.group(1)), m.group(2))
@@ -578,7 +590,10 @@ class Executor:
         if m:
             return Opaque("float:" + s)
         # named constant
-        name = s
+        name = _strip_generics(s)
+        mq = re.match(r"^<(.+?) as (.+?)>::(.*::promoted\[\d+\])$", name)
+        if mq:
+            name = _last_seg(mq.group(2)) + "::" + mq.group(3)
         cands = [n for n in self.consts if n == name or n.endswith("::" + name) or name.endswith("::" + n)]
         if len(cands) >= 1:
             cands.sort(key=len)
@@ -661,7 +676,8 @@ class Executor:
         if k == "discr":
             v = self._read_place(st, uid, rv[1])
             if isinstance(v, Enum):
-                return Int(v.d, "isize")
+                dty = fn.locals.get(dest[1], "isize") if dest and dest[0] == "local" else "isize"
+                return Int(v.d, dty if dty in INT_TYPES else "isize")
             raise NotEncodable("discriminant of %r" % (v,))
         if k == "tuple":
             return Agg([self._operand(st, uid, o) for o in rv[1]])
@@ -789,6 +805,8 @@ class Executor:
     def _call(self, st, fn, uid, callee, args, depth):
         from . import models
         callee = callee.strip()
+        for gp, gt_ in self.generics.items():
+            callee = re.sub(r"\b%s\b" % re.escape(gp), gt_, callee)
         r = models.try_model(self, st, callee, args)
         if r is not models.NO_MODEL:
             self.models_used.add(models.LAST[0])
